@@ -202,12 +202,43 @@ func (h *c14Hist) materialise(env *Env) (*simrt.History, []*c14Key) {
 }
 
 func c14Gen(r *Run, rng *gen.Rng, corpus []string) *c14Hist {
+	return c14GenOdd(r, rng, corpus, nil)
+}
+
+func c14GenOdd(r *Run, rng *gen.Rng, corpus []string, oddPool []string) *c14Hist {
 	gw := gen.NewWorld(rng.Sub(), gen.WorldOpts{MaxFiles: 4, StdPct: 6, AllowStd: true, Hostile: false, Decoys: rng.Range(1, 2), Corpus: corpus, CorpusPct: 10, SmallFeats: true})
 	h := &c14Hist{Versions: map[string][]string{}, Closures: map[string][]string{}, StdUsed: map[string][]string{}, Epoch: int64(rng.Intn(1 << 30))}
 	h.Progs = []string{gw.Main}
 	for k := rng.Range(1, 3); k > 0; k-- {
 		name := fmt.Sprintf("%sapp%d.tsh", rng.Pick([]string{"", "", "cmd/"}), k)
 		gen.AddMain(rng, gw, name, 3)
+		h.Progs = append(h.Progs, name)
+	}
+	// "poison" candidates: rejected or unusual programs (operand matrix, near-miss, stress)
+	// transpiled in between; whatever they leave behind in the process must not
+	// change what later calls answer
+	matrix := oddPool
+	if len(matrix) == 0 {
+		matrix = gen.OperandMatrix()
+	}
+	oddFirst := rng.Chance(30)
+	nOdd := rng.Range(0, 2)
+	if oddFirst {
+		nOdd = rng.Range(3, 6)
+	}
+	for k := nOdd; k > 0; k-- {
+		name := fmt.Sprintf("odd%d.tsh", k)
+		var src string
+		switch rng.Intn(4) {
+		case 0, 1:
+			src = matrix[rng.Intn(len(matrix))]
+		case 2:
+			src, _ = gen.SpliceNearMiss(rng, "print(1)\n")
+		default:
+			src, _ = gen.StressProgram(rng)
+		}
+		gw.Set(name, []byte(src))
+		gw.Edges[name] = nil
 		h.Progs = append(h.Progs, name)
 	}
 	h.Files = gw.Files
@@ -236,8 +267,27 @@ func c14Gen(r *Run, rng *gen.Rng, corpus []string) *c14Hist {
 	exes := []string{"/sim/x", "/opt/tsh/bin", "/usr/local/libexec/t"}
 	// phase 0: canonical execution of every (program, target)
 	obj := 100
+	order := []int{}
 	for pi := range h.Progs {
-		for _, t := range []string{"bash", "batch"} {
+		order = append(order, pi)
+	}
+	if oddFirst {
+		// the odd programs are the first things this process ever transpiles
+		sort.SliceStable(order, func(a, b int) bool {
+			return strings.HasPrefix(h.Progs[order[a]], "odd") && !strings.HasPrefix(h.Progs[order[b]], "odd")
+		})
+	} else if rng.Chance(50) {
+		for i := len(order) - 1; i > 0; i-- {
+			j := rng.Intn(i + 1)
+			order[i], order[j] = order[j], order[i]
+		}
+	}
+	for _, pi := range order {
+		targets := []string{"bash", "batch"}
+		if rng.Chance(50) {
+			targets = []string{"batch", "bash"}
+		}
+		for _, t := range targets {
 			obj++
 			h.Steps = append(h.Steps, c14Step{Kind: "T", Prog: pi, Target: t, Obj: obj, MapMode: "canonical", Spelling: "abs"})
 		}
@@ -543,6 +593,39 @@ func c14RunCold(env *Env, conc *simrt.History, steps []int) (map[int]*simrt.Call
 	return out, nil
 }
 
+// c14OddPool runs the operand matrix once and keeps one program per distinct
+// normalised outcome (accepted, or the error text with names and numbers
+// replaced): odd programs for the histories are then drawn uniformly over
+// outcome classes instead of over programs, so that rare kinds of rejection
+// are as likely as common ones.
+func c14OddPool(r *Run) ([]string, error) {
+	progs := gen.OperandMatrix()
+	cases := make([]simrt.Case, len(progs))
+	for i, p := range progs {
+		cases[i] = simrt.Case{World: simrt.WorldSpec{Files: []simrt.FileSpec{{Path: "/sim/m/main.tsh", Data: []byte(p)}, {Path: "/sim/x/tsh", Data: []byte("ELF")}}, Cwd: "/sim/m", Exe: "/sim/x/tsh"},
+			Path: "/sim/m/main.tsh", Target: []string{"bash", "batch"}[i%2]}
+	}
+	res, err := r.Env.RunCases(cases)
+	if err != nil {
+		return nil, err
+	}
+	first := map[string]string{}
+	for i := range res {
+		k := res[i].Kind + ": " + normalise(res[i].Err)
+		if res[i].Kind == "script" {
+			k = fmt.Sprintf("script-%d", i%7) // keep a few accepted ones
+		}
+		if _, ok := first[k]; !ok {
+			first[k] = progs[i]
+		}
+	}
+	out := []string{}
+	for _, k := range sortedKeys(first) {
+		out = append(out, first[k])
+	}
+	return out, nil
+}
+
 func c14Shape(h *c14Hist) string {
 	var sb strings.Builder
 	for _, s := range h.Steps {
@@ -575,6 +658,10 @@ func checkC14(r *Run) error {
 	rng := gen.NewRng(r.Seed)
 	corpus := gen.HarvestCorpus(r.Env.Repo)
 	st := &c14Stats{keys: map[string]bool{}, shapes: map[string]bool{}, answers: map[string]int{}}
+	oddPool, err := c14OddPool(r)
+	if err != nil {
+		return err
+	}
 	batch := 64
 	rounds := 0
 	detMismatch := 0
@@ -582,7 +669,7 @@ func checkC14(r *Run) error {
 	for r.Left() > 0 {
 		hs := make([]*c14Hist, batch)
 		for i := range hs {
-			hs[i] = c14Gen(r, rng.Sub(), corpus)
+			hs[i] = c14GenOdd(r, rng.Sub(), corpus, oddPool)
 		}
 		type out struct {
 			conc  *simrt.History
